@@ -179,7 +179,8 @@ def main():
                     cur = None
                     try:
                         with open(out + ".status", "rb") as f:
-                            cur = f.read(8)
+                            raw = f.read(24)
+                            cur = raw[:8] + raw[16:24]  # current index + heartbeat (advances while the worker skips other binaries' jobs)
                     except OSError:
                         pass
                     if cur != last_idx:
